@@ -98,6 +98,24 @@ def pelx_truth(t):
     return t
 
 
+def check_decode_independent_of_display(rep, prog, rule):
+    """whether a file is accepted (all its sections decode) must not depend on how it is displayed: parsePEL decodes
+    the optional sections under the same condition with and without --hex"""
+    I = Interpreter(prog, hooks={"opaque": {PT + "sectionFun", PT + "considerPEL", PT + "prettyPrint", PT + "buildOutput",
+                                            PT + "generatePH", PT + "generateUH"}})
+    st = pelx.new_stream(I)
+    c = I.new("pel.peltool.config.Config")
+    hexs = Sym("cfg.hex", "exc")
+    I.obj(c).attrs["hex"] = hexs
+    I.call(PT + "parsePEL", [st, c, Const(False)])
+    sf = [e for e in I.events if e.kind == "opaquecall" and e.data[0] == PT + "sectionFun"]
+    dep = [e for e in sf if any(x == hexs for x in walk(e.guard))]
+    rep.check(bool(sf) and not dep, rule, "parsePEL decodes the optional sections whether or not --hex is given", PT + "parsePEL",
+              dep[0].node if dep else "sectionFun(...)", "the optional sections are decoded only without --hex: with --hex a file whose "
+              "later sections are damaged is accepted (and hex-dumped) although it is rejected without --hex",
+              node=dep[0].node if dep else None)
+
+
 def check_pipelines(rep, prog, fm, cfg):
     """same selection pipeline PH -> UH -> considerPEL(uh, config) in count, list and all"""
     rule = "C08.R2.same-filter"
@@ -278,3 +296,8 @@ def run(rep, prog, thorough):
     check_json_order(rep, prog)
     from .c09 import check_all_separator
     check_all_separator(rep, fm, "C08.R2.same-filter")
+    # count / list look at the two headers only, display-all decodes every section: a well-formed section that the full
+    # decode cannot digest makes the three modes disagree (rule shared with C01)
+    check_decode_independent_of_display(rep, prog, "C08.R2.same-filter")
+    from .c01 import check_full_decode_accepts
+    check_full_decode_accepts(rep, prog, "C08.R5.full-decode-accepts")
